@@ -182,9 +182,9 @@ def irOps (bits : Nat) (from_ : Int) : Ops IR where
   deref i := some (IR.deref i)
   index _ := 0
   rel op _ l r := match op with
-    | "eq" => some (IR.eq l r) | "ne" => some (IR.ne l r)
-    | "lt" => some (IR.lt l r) | "le" => some (IR.le l r)
-    | "gt" => some (IR.gt l r) | "ge" => some (IR.ge l r)
+    | "eq" => some (IR.eqW bits l r) | "ne" => some (IR.neW bits l r)
+    | "lt" => some (IR.ltW bits l r) | "le" => some (IR.leW bits l r)
+    | "gt" => some (IR.gtW bits l r) | "ge" => some (IR.geW bits l r)
     | _ => none
   diff _ := IR.diffW bits
   plusI := some IR.plus
@@ -432,7 +432,7 @@ def withOps (k : Kind) (f : {I : Type} → Ops I → String) : String :=
   match k.fromTo with
   | some (fr, _) =>
     if k.name == "trir" then
-      f (newOps false irBase (fun p => (⟨fr + p⟩ : IR)) (fun i => i.value - fr) (fun i => some (fT (IR.deref i))))
+      f (newOps false (irBaseW 32) (fun p => (⟨fr + p⟩ : IR)) (fun i => i.value - fr) (fun i => some (fT (IR.deref i))))
     else f (irOps ((irType k.name).map (·.1) |>.getD 64) fr)
   | none =>
     let c := k.vals
@@ -477,9 +477,44 @@ def sirCatalogue : List (String × Int × Int × Nat × Bool) :=
    ("sir_u64", 0, 4, 64, false), ("sir_u64", 3, 3, 64, false), ("sir_u64", 1, 9, 64, false),
    ("sir_u8", 250, 255, 8, false), ("sir_i8", -128, -125, 8, true), ("sir_i16", -7, -2, 16, true)]
 
+/-- the six comparisons and the difference of two iterators, `lt le gt ge eq ne diff` -/
+def showCmp7 (lt le gt ge eq ne : Bool) (d : Int) : String :=
+  " ".intercalate [showB lt, showB le, showB gt, showB ge, showB eq, showB ne, toString d]
+
+/-- does `n` fit the signed `bits` wide difference type -/
+def fitsDiff (bits : Nat) (n : Int) : Bool := decide (-(2 ^ (bits - 1)) ≤ n ∧ n < 2 ^ (bits - 1))
+
 def integralRangeOp (stat : Bool) (bits : Nat) (sgn : Bool) (f t : Int) (op : String) (arg : List Int) (enumLimit : Bool) : String :=
   let r : IntegralRange := ⟨f, t⟩
   match op, arg with
+  -- iterators of the range at the VALUES x and y (any two positions of a range of any extent):
+  -- the hand-written IntegralRangeIterator
+  | "itcmp", [x, y] =>
+    if stat ∨ x < f ∨ x > t ∨ y < f ∨ y > t then "bad-op" else
+    let a : IR := ⟨x⟩; let b : IR := ⟨y⟩
+    showCmp7 (IR.ltW bits a b) (IR.leW bits a b) (IR.gtW bits a b) (IR.geW bits a b) (IR.eqW bits a b) (IR.neW bits a b)
+      (IR.diffW bits a b)
+  -- the same two positions as iterators of a transformed range over the integral range (new IteratorFacade over
+  -- the IntegralRangeIterator: comparisons derived from the machine difference of the base iterators)
+  | "tcmp", [x, y] =>
+    if stat ∨ x < f ∨ x > t ∨ y < f ∨ y > t then "bad-op" else
+    let bs := irBaseW bits
+    let a : IR := ⟨x⟩; let b : IR := ⟨y⟩
+    showCmp7 (NewF.lt bs a b) (NewF.le bs a b) (NewF.gt bs a b) (NewF.ge bs a b) (NewF.eq bs a b) (NewF.ne bs a b)
+      (NewF.diff bs a b)
+  -- the iterator at value x moved by n (any n of the difference type that stays inside the range):
+  -- it+n, n+it, it+=n, it[n], it-(-n), it-=(-n)
+  | "tadv", [x, n] =>
+    if stat ∨ x < f ∨ x > t ∨ x + n < f ∨ x + n > t ∨ !fitsDiff bits n ∨ !fitsDiff bits (-n) then "bad-op" else
+    let bs := irBaseW bits
+    let a : IR := ⟨x⟩
+    showList [(NewF.plus bs a n).value, (NewF.plus bs a n).value, (NewF.addAssign bs a n).value,
+              NewF.index bs IR.deref a n, (NewF.minus bs a (-n)).value, (NewF.subAssign bs a (-n)).value]
+  | "itadv", [x, n] =>
+    if stat ∨ x < f ∨ x > t ∨ x + n < f ∨ x + n > t ∨ !fitsDiff bits n ∨ !fitsDiff bits (-n) then "bad-op" else
+    let a : IR := ⟨x⟩
+    showList [(IR.plus a n).value, (IR.nplus n a).value, (IR.addAssign a n).value, IR.index a n,
+              (IR.minus a (-n)).value, (IR.subAssign a (-n)).value]
   | "size", [] => toString (if stat then SR.size bits r else r.size bits)
   | "empty", [] => showB (if stat then SR.empty r else r.empty)
   | "contains", [x] => if typeFits bits sgn x x then showB (if stat then SR.contains r x else r.contains x) else "bad-op"
@@ -524,7 +559,8 @@ def handleRg (kind spec op : String) (rest : List String) : String :=
   match rest.mapM parseLong with
   | none => "bad-op"
   | some arg =>
-    if (if op == "contains" || op == "at" || op == "vat" then arg.length != 1 else !arg.isEmpty) then "bad-op" else
+    if (if op == "contains" || op == "at" || op == "vat" then arg.length != 1
+        else if op == "itcmp" || op == "tcmp" || op == "itadv" || op == "tadv" then arg.length != 2 else !arg.isEmpty) then "bad-op" else
     if kind.startsWith "sir_" then
       match parseFromTo spec with
       | none => "bad-op"
